@@ -285,7 +285,13 @@ class M4(MCallerHttp):
     """a caller whose components live under prefixes that differ only in their slashes ('/srv' + 'list' and
     '/srv/' + 'list' are two addresses)"""
     # (... and a component whose name has a comma in it, next to a component called like one of its halves)
-    _HTTP_PREFIX_MAP = {'s1': '/srv', 's2': '/srv/', 's3': 'srv', 's4': '/Srv', 'srv,eu': '/eu/srv', 'eu': '/eu'}
+    # (... and a component whose name is the empty text)
+    _HTTP_PREFIX_MAP = {'s1': '/srv', 's2': '/srv/', 's3': 'srv', 's4': '/Srv', 'srv,eu': '/eu/srv', 'eu': '/eu',
+                        '': '/api/v1'}
+
+    @method_http(None, '')
+    def call_s6(self):
+        return self.get_conn().get("list")
 
     @method_http(None, 'srv,eu')
     def call_s5(self):
@@ -691,7 +697,7 @@ def _run_history(ctx, rng, case):
             ctx.count("wrappers_of_a_derived_caller_class_called")
         # components whose prefixes read alike, all used through ONE caller object, in any order, more than once
         m4 = M4(conn if isinstance(conn, H.HttpConn) else H.HttpConn(conn))
-        names = [("call_s1", "/srv"), ("call_s2", "/srv/"), ("call_s3", "srv"), ("call_s4", "/Srv"), ("call_s5", "/eu/srv")]
+        names = [("call_s1", "/srv"), ("call_s2", "/srv/"), ("call_s3", "srv"), ("call_s4", "/Srv"), ("call_s5", "/eu/srv"), ("call_s6", "/api/v1")]
         for name, prefix in [rng.choice(names) for _ in range(5)]:
             del log[:]
             steps.append(["caller with look-alike prefixes", name])
